@@ -1103,4 +1103,208 @@ def GOk : List CStep → Prop
   | [_] => True
   | s :: s2 :: r => (s.isName = true ∨ s2.isName = true) ∧ GOk (s2 :: r)
 
+/-! ### every path of the honoured grammar (first step below a dict) -/
+
+def CStep.nameOf : CStep → Str
+  | .name n => n
+  | .elem n _ => n
+  | .idx _ => []
+
+/-- the token `_find`/`_add` see for a step -/
+def stepTok : CStep → Str
+  | .name n => n
+  | .elem n e => n ++ bracket e
+  | .idx e => bracket e
+
+/-- what the step puts into the slot `nameOf s` (followed by the remaining steps) -/
+def slotVal : CStep → List CStep → Val → Val
+  | .name _, r, v => fill r v
+  | .elem _ _, r, v => .list .n0 [fill r v]
+  | .idx _, r, v => fill r v
+
+theorem fill_cons_later (s : CStep) (r : List CStep) (v : Val) (hs : s.later) :
+    fill (s :: r) v = .dict .n0 [(s.nameOf, slotVal s r v)] := by
+  cases s with
+  | name n => rfl
+  | elem n e => rfl
+  | idx e => exact absurd hs (by simp [CStep.later])
+
+theorem CStep.later_plain {s : CStep} (h : s.later) : PlainKey s.nameOf := by
+  cases s with
+  | name n => exact h
+  | elem n e => exact h.1
+  | idx e => exact absurd h (by simp [CStep.later])
+
+/-- `name[new()]` / `name[0]` on a fresh name below the dict created one level up -/
+theorem addStep_elem_next (root root1 : Val) (q : Pos) (c : Cls) (kvs : List (Str × Val)) (n0 : Str)
+    (c' : Cls) (kvs' : List (Str × Val)) (name e : Str)
+    (hq : getAt root q = some (.dict c kvs)) (hn0 : PlainKey n0) (hl0 : lookup n0 kvs = some (.dict c' kvs'))
+    (hn : PlainKey name) (he : e = sNew ∨ e = ['0']) (hl : lookup name kvs' = Option.none)
+    (hs : setAt root (q ++ [.key n0]) (.dict c' (kvSet name (.list .n0 [Val.none]) kvs')) = some root1) :
+    addStep root (.at q) (some n0) (name ++ bracket e)
+      = .ok (root1, .at (q ++ [.key n0] ++ [.key name]), bracket sLast) := by
+  have hq1 : getAt root (q ++ [.key n0]) = some (.dict c' kvs') := by
+    rw [getAt_snoc, hq]; simp [child, hl0]
+  have hhas : kvHas n0 kvs = true := by simp [kvHas, hl0]
+  have hie : IdxExpr e := by
+    rcases he with rfl | rfl
+    · exact idxExpr_new
+    · exact (natStr_idxExpr 0)
+  have hsplit := split_bracket name e (Or.inr hn) hie
+  have hne : e.isEmpty = false := isEmpty_false_of_ne hie.ne
+  have hcond : (decide (Idx.str e ≠ Idx.str sNew) && decide (Idx.str e ≠ Idx.str ['0'])) = false := by
+    rcases he with rfl | rfl <;> simp
+  unfold addStep
+  simp only [isEmpty_false_of_ne hn0.ne, Bool.false_eq_true, if_false, hn0.keyTok.split, hsplit, ok_bind,
+    hn.noBracket, hn.noSlashC, hn0.noBracket, Bool.or_self, Bool.not_false, if_true, valOf_at, hq, hhas, pure_bind,
+    childRef, hq1, isEmpty_false_of_ne hn.ne, hl, Idx.truthy, hne, hcond]
+  rw [modRef_at' root (q ++ [Seg.key n0]) _ (.dict c' kvs') root1 hq1]
+  · simp [childRef]; rfl
+  · exact hs
+
+/-- a later step `s` followed by `r` is well formed: `s` is last, or `s` or its successor is a name -/
+theorem GOk.tail {s : CStep} {r : List CStep} (h : GOk (s :: r)) : GOk r := by
+  cases r with
+  | nil => trivial
+  | cons s2 r' => exact h.2
+
+/-- after an element-creating step the next step (if any) is a name -/
+def HeadName : List CStep → Prop
+  | [] => True
+  | s :: _ => s.isName = true
+
+theorem GOk.headName_of_elem {n e : Str} {r : List CStep} (h : GOk (.elem n e :: r)) : HeadName r := by
+  cases r with
+  | nil => trivial
+  | cons s2 r' =>
+    rcases h.1 with h1 | h1
+    · simp [CStep.isName] at h1
+    · exact h1
+
+mutual
+/-- `_add` below a dict it has found or created, for the remaining steps of the honoured grammar -/
+theorem add_store_steps (steps : List CStep) (root : Val) (q : Pos) (c : Cls) (kvs : List (Str × Val)) (n : Str)
+    (c' : Cls) (kvs' : List (Str × Val)) (s : CStep) (v t' : Val)
+    (hq : getAt root q = some (.dict c kvs)) (hn : PlainKey n) (hl0 : lookup n kvs = some (.dict c' kvs'))
+    (hs : s.later) (hsteps : ∀ x ∈ steps, x.later) (hg : GOk (s :: steps))
+    (hl : lookup s.nameOf kvs' = Option.none)
+    (hset : setAt root (q ++ [.key n, .key s.nameOf]) (slotVal s steps v) = some t') :
+    AddStores root (.at q) (some n) (stepTok s :: steps.map stepTok) v t' := by
+  have hq1 : getAt root (q ++ [Seg.key n]) = some (.dict c' kvs') := by
+    rw [getAt_snoc, hq]; simp [child, hl0]
+  have hassoc : q ++ [Seg.key n, Seg.key s.nameOf] = q ++ [Seg.key n] ++ [Seg.key s.nameOf] := by simp
+  cases s with
+  | idx e => exact absurd hs (by simp [CStep.later])
+  | name m =>
+    have hm : PlainKey m := hs
+    simp only [CStep.nameOf] at hl hset hassoc
+    obtain ⟨root1, hs1⟩ := setAt_isSome (q ++ [Seg.key n]) root _ (.dict c' (kvSet m emptyN0Dict kvs')) hq1
+    have hstep := addStep_name_next root root1 q c kvs n c' kvs' m hq hn hl0 hm hl hs1
+    have hg1 : getAt root1 (q ++ [Seg.key n]) = some (.dict c' (kvSet m emptyN0Dict kvs')) :=
+      getAt_setAt_same _ root root1 _ hs1 (fun _ _ => trivial)
+    have hs1' : setAt root (q ++ [Seg.key n] ++ [Seg.key m]) emptyN0Dict = some root1 := by
+      rw [setAt_snoc (q ++ [Seg.key n]) root (.key m) emptyN0Dict _ _ hq1 (by simp [setChild]; rfl)]
+      exact hs1
+    refine addStores_step hstep ⟨?_, ?_⟩
+    · intro hnil
+      have : steps = [] := by simpa using hnil
+      subst this
+      apply storeAt_key root1 t' (q ++ [Seg.key n]) c' _ m v hg1 hm
+      rw [setAt_overwrite _ root root1 _ _ hs1, kvSet_kvSet]
+      simp only [slotVal, fill] at hset
+      rw [hassoc, setAt_snoc (q ++ [Seg.key n]) root (.key m) v _ _ hq1 (by simp [setChild]; rfl)] at hset
+      exact hset
+    · intro hne
+      obtain ⟨s2, r, rfl⟩ : ∃ s2 r, steps = s2 :: r := by
+        cases steps with
+        | nil => exact absurd rfl hne
+        | cons s2 r => exact ⟨s2, r, rfl⟩
+      have hs2 := hsteps s2 (by simp)
+      simp only [List.map_cons]
+      apply add_store_steps r root1 (q ++ [Seg.key n]) c' (kvSet m emptyN0Dict kvs') m .n0 [] s2 v t'
+        hg1 hm (lookup_kvSet_same _ _ _) hs2 (fun x hx => hsteps x (by simp [hx])) hg.tail rfl
+      have := setAt_into_written root root1 (q ++ [Seg.key n] ++ [Seg.key m]) .n0 [] s2.nameOf (slotVal s2 r v) hs1'
+      rw [show q ++ [Seg.key n] ++ [Seg.key m, Seg.key s2.nameOf] = q ++ [Seg.key n] ++ [Seg.key m] ++ [Seg.key s2.nameOf] by simp,
+        this, ← hassoc]
+      simp only [slotVal, fill_cons_later s2 r v hs2] at hset
+      exact hset
+  | elem m e =>
+    obtain ⟨hm, he⟩ : PlainKey m ∧ (e = sNew ∨ e = ['0']) := hs
+    simp only [CStep.nameOf] at hl hset hassoc
+    obtain ⟨root1, hs1⟩ := setAt_isSome (q ++ [Seg.key n]) root _ (.dict c' (kvSet m (.list .n0 [Val.none]) kvs')) hq1
+    have hstep := addStep_elem_next root root1 q c kvs n c' kvs' m e hq hn hl0 hm he hl hs1
+    have hs1' : setAt root (q ++ [Seg.key n] ++ [Seg.key m]) (.list .n0 [Val.none]) = some root1 := by
+      rw [setAt_snoc (q ++ [Seg.key n]) root (.key m) _ _ (.dict c' (kvSet m (.list .n0 [Val.none]) kvs')) hq1
+        (by simp [setChild])]
+      exact hs1
+    refine addStores_step hstep ?_
+    apply cont_steps steps root1 (q ++ [Seg.key n] ++ [Seg.key m]) .n0 [] v t'
+      (getAt_setAt_same _ root root1 _ hs1' (fun _ _ => trivial)) hsteps hg.tail hg.headName_of_elem
+    rw [setAt_overwrite _ root root1 _ _ hs1', ← hassoc]
+    exact hset
+termination_by (steps.length, 1)
+
+/-- after the placeholder has been appended to the list at `P`: the store overwrites it, or the
+following steps (a name first) replace it by what they create -/
+theorem cont_steps (steps : List CStep) (root1 : Val) (P : Pos) (c : Cls) (ys : List Val) (v t' : Val)
+    (hP : getAt root1 P = some (.list c (ys ++ [Val.none]))) (hsteps : ∀ x ∈ steps, x.later) (hg : GOk steps)
+    (hh : HeadName steps) (hset : setAt root1 P (.list c (ys ++ [fill steps v])) = some t') :
+    Cont root1 (.at P) (bracket sLast) (steps.map stepTok) v t' := by
+  cases steps with
+  | nil =>
+    refine ⟨fun _ => ?_, fun h => absurd rfl h⟩
+    apply storeAt_last root1 t' P c (ys ++ [Val.none]) v hP (by simp)
+    simpa [fill] using hset
+  | cons s ms =>
+    cases s with
+    | elem m e => simp [HeadName, CStep.isName] at hh
+    | idx e => simp [HeadName, CStep.isName] at hh
+    | name x =>
+    have hx : PlainKey x := hsteps (.name x) (by simp)
+    obtain ⟨root2, hs2⟩ := setAt_isSome P root1 _ (.list c (ys ++ [.dict .n0 [(x, emptyN0Dict)]])) hP
+    have hstep := addStep_last_name root1 root2 P c (ys ++ [Val.none]) x hP (by simp) hx (by simpa using hs2)
+    have hlen : (ys ++ [Val.none]).length - 1 = ys.length := by simp
+    rw [hlen] at hstep
+    have hg2 : getAt root2 (P ++ [Seg.idx ys.length]) = some (.dict .n0 [(x, emptyN0Dict)]) := by
+      rw [getAt_setAt_below root1 root2 _ P _ hs2]
+      simp [getAt, child]
+    have hg2P : getAt root2 P = some (.list c (ys ++ [.dict .n0 [(x, emptyN0Dict)]])) :=
+      getAt_setAt_same P root1 root2 _ hs2 (fun _ _ => trivial)
+    have hwrite : ∀ D, setAt root2 (P ++ [Seg.idx ys.length]) D = setAt root1 P (.list c (ys ++ [D])) := by
+      intro D
+      rw [setAt_snoc P root2 (.idx ys.length) D _ _ hg2P (setChild_snoc c ys _ D)]
+      exact setAt_overwrite P root1 root2 _ _ hs2
+    refine ⟨fun h => by simp at h, fun _ => ?_⟩
+    simp only [List.map_cons, stepTok]
+    refine addStores_step hstep ⟨?_, ?_⟩
+    · intro hnil
+      have : ms = [] := by simpa using hnil
+      subst this
+      apply storeAt_key root2 t' (P ++ [Seg.idx ys.length]) .n0 [(x, emptyN0Dict)] x v hg2 hx
+      rw [hwrite]
+      simpa [fill, kvSet] using hset
+    · intro hne
+      obtain ⟨s2, r, rfl⟩ : ∃ s2 r, ms = s2 :: r := by
+        cases ms with
+        | nil => exact absurd rfl hne
+        | cons s2 r => exact ⟨s2, r, rfl⟩
+      have hs2' := hsteps s2 (by simp)
+      simp only [List.map_cons]
+      apply add_store_steps r root2 (P ++ [Seg.idx ys.length]) .n0 [(x, emptyN0Dict)] x .n0 [] s2 v t' hg2 hx
+        (by simp [lookup, emptyN0Dict]) hs2' (fun y hy => hsteps y (by simp [hy])) hg.tail rfl
+      have hs3 : setAt root2 (P ++ [Seg.idx ys.length]) (.dict .n0 [(x, emptyN0Dict)]) = some root2 :=
+        (hwrite _).trans hs2
+      have e1 := setAt_into_written root2 root2 (P ++ [Seg.idx ys.length]) .n0 [(x, emptyN0Dict)] x
+        (.dict .n0 [(s2.nameOf, slotVal s2 r v)]) hs3
+      have hgx : getAt root2 (P ++ [Seg.idx ys.length] ++ [Seg.key x]) = some emptyN0Dict := by
+        rw [getAt_snoc, hg2]; simp [child, lookup]
+      rw [show P ++ [Seg.idx ys.length] ++ [Seg.key x, Seg.key s2.nameOf]
+          = P ++ [Seg.idx ys.length] ++ [Seg.key x] ++ [Seg.key s2.nameOf] by simp,
+        setAt_snoc _ root2 (.key s2.nameOf) (slotVal s2 r v) emptyN0Dict (.dict .n0 [(s2.nameOf, slotVal s2 r v)]) hgx
+          (by simp [setChild, emptyN0Dict, kvSet]),
+        e1, hwrite]
+      simpa [fill, fill_cons_later s2 r v hs2', kvSet] using hset
+termination_by (steps.length, 0)
+end
+
 end N0.XPath
